@@ -67,6 +67,10 @@ theorem zentry_inv {σ : Type} (ops : FsOps σ) (myUid myGid : Nat) (filt : Unpa
       · simp only [hdup, ne_eq, not_false_eq_true, and_self, if_true]
         exact ⟨fun w e => (by cases e), fun st' e => (by cases e)⟩
       · rw [if_neg hdup]
+        by_cases htwin : st.pre.has (twinOf fmeta) = true
+        · simp only [htwin, if_true]
+          exact ⟨fun w e => (by cases e), fun st' e => (by cases e)⟩
+        simp only [htwin, Bool.false_eq_true, if_false]
         obtain ⟨cp1, cp2⟩ := conjure_inv ops myUid myGid filt fmeta.name.splitParent st hi (splitParent_good _ hgood)
         cases hcj : conjureParents ops myUid myGid filt fmeta.name.splitParent st with
         | panic w => exact absurd hcj (cp1 w)
